@@ -3,9 +3,32 @@
    Flocq's Zfloor/Zceil. *)
 From Coq Require Import Reals Lra ZArith Bool List.
 From Flocq Require Import Core.Raux.
-From SC Require Import Num Vec3 VecR Kernel KernelProofs Grid Contact ContactProofsB ContactProofsC.
+From SC Require Import Num Vec3 VecR Kernel KernelProofs Grid Contact Contact_gen ContactProofsB ContactProofsC.
 Import ListNotations.
 Local Open Scope R_scope.
+
+(* 0. THE BROAD PHASE OF THE MODEL IS THE SOURCE.  Contact_gen.v is regenerated on every run from contact_model_abstract.cpp
+   (harness/translate_broadphase.py): the padding and the voxel size of the constructor, the six bounds of the padded box of a
+   face (update_face_aabbs) and the first / last voxel per axis in which a face is registered (store_face_in_uspg, whose three
+   nested loops are checked to run inclusively from start to stop, x outermost).  The functions of Contact.v used below are
+   those, for every number type; the kernel they are combined with is tied the same way in Properties_C05 and the grid in
+   Properties_C20. *)
+Theorem broad_phase_model_is_what_the_source_says : (broadphase_translation_ok = true :> bool) /\
+  (forall (T : Type) (N : Num T) (lmin cut_adh cut_rep : T),
+     pad_gen N cut_adh cut_rep = pad N cut_adh cut_rep /\ vsize_gen N lmin (pad N cut_adh cut_rep) = vsize N lmin cut_adh cut_rep) /\
+  (forall (T : Type) (N : Num T) (cut_adh cut_rep : T) (p1 p2 p3 : vec3 T),
+     face_box_gen N (pad N cut_adh cut_rep) p1 p2 p3 = face_box N cut_adh cut_rep p1 p2 p3) /\
+  (forall (T : Type) (N : Num T) (fl : T -> Z) (g : dims (T:=T)) (b : box (T:=T)),
+     box_voxels N fl g b =
+       let '((xs, ys, zs), (xe, ye, ze)) := box_range_gen N fl g b in
+       flat_map (fun x => flat_map (fun y => map (fun z => (x, y, z)) (zrange zs (ze + 1)%Z)) (zrange ys (ye + 1)%Z)) (zrange xs (xe + 1)%Z)).
+Proof.
+  split; [reflexivity|]. split; [|split].
+  - intros. split; reflexivity.
+  - intros. reflexivity.
+  - intros T N fl g b. destruct g as [[[? ?] ?] [[? ?] ?] ?]. reflexivity.
+Qed.
+Print Assumptions broad_phase_model_is_what_the_source_says.
 
 Section C06.
   Variables (eps dmax inf c45 c90 lmin cut_adh cut_rep : R).
